@@ -38,6 +38,7 @@ var docTexts = []struct {
 	{"name-twice", []string{"$T $Ts are counted."}},
 	{"name-twice-as-word", []string{"$T $T of measure, $T again."}},
 	{"longer-word-with-name-prefix", []string{"$Taque word, not the name."}},
+	{"leading-name-then-odd-spacing", []string{"$T  has two blanks.  Two more,\ta tab, a no-break\u00a0space and an ideographic\u3000space.", "a second line   with runs of blanks"}},
 }
 
 // expected doc lines for a thing named name
@@ -427,7 +428,7 @@ func replay(c *core.Ctx, raw json.RawMessage) {
 func init() {
 	core.Register(&core.Prop{
 		ID: "C16", Level: "model_checking", Run: run, Replay: replay, Shards: 4,
-		Rule: "15 type shapes (exported/unexported/generic structs, embedding by value and by pointer, only-unexported fields, defined string/map/slice/func, interface, anonymous/empty/foreign/pointer field types, embedding of unexported and non-struct types) x 14 type-doc texts x 11 field-doc texts (quotes, backslashes, backquotes, %, @name', Unicode, blank line, tag line, leading name, name twice, longer word with the name as prefix); thorough: full product, quick: the diagonal + everything against none/plain/leading-name + a third of the rest. Every third package carries a //line directive that renames its source file. Each package is first generated from an EARLIER version of its source (other doc texts) whose output stays in place, then generated twice from the current source (byte-identical; built with the map-order seam the second run iterates every map of library and generator in descending order), compiled with the package and a harness-written check file, and run: RuntimeDoc() and RuntimeDoc(name) for every field, delegated field and unknown name vs the doc lines the harness wrote. Non-trivial = some doc text present; states = (shape, failed?)",
+		Rule: "15 type shapes (exported/unexported/generic structs, embedding by value and by pointer, only-unexported fields, defined string/map/slice/func, interface, anonymous/empty/foreign/pointer field types, embedding of unexported and non-struct types) x 15 type-doc texts x 11 field-doc texts (quotes, backslashes, backquotes, %, @name', Unicode, blank line, tag line, leading name, name twice, longer word with the name as prefix); thorough: full product, quick: the diagonal + everything against none/plain/leading-name + a third of the rest. Every third package carries a //line directive that renames its source file. Each package is first generated from an EARLIER version of its source (other doc texts) whose output stays in place, then generated twice from the current source (byte-identical; built with the map-order seam the second run iterates every map of library and generator in descending order), compiled with the package and a harness-written check file, and run: RuntimeDoc() and RuntimeDoc(name) for every field, delegated field and unknown name vs the doc lines the harness wrote. Non-trivial = some doc text present; states = (shape, failed?)",
 		Assumptions: []string{
 			"field docs starting with the field name, embedded fields with their own doc, [[embed]] lines and lines starting with go: are outside the alphabet",
 			"'leading type name removed' is read as: the first word is the name",
